@@ -43,6 +43,11 @@ type node struct {
 	tree  int      // index into trees
 	steps []string // "c<hex>", "i", "o"
 	names []string // written names of the steps
+	// schema: the names of the node's schema path as RFC 7950 7.9.2 reads the source: a member
+	// written directly under a choice sits in an implied case of its own name. Equal to names on a
+	// properly processed tree (FixChoice has inserted every implied case); where a case entry is
+	// missing the schema path has one name more than the tree has steps.
+	schema []string
 	viaRP bool     // some step is a Dir child of an rpc/action entry (limit L2)
 }
 
@@ -74,7 +79,7 @@ func encSteps(s []string) string {
 	return strings.Join(s, ".")
 }
 
-func (w *world) walk(t int, e *yang.Entry, steps, names []string, viaRP bool) {
+func (w *world) walk(t int, e *yang.Entry, steps, names, schema []string, viaRP bool) {
 	if e == nil {
 		return
 	}
@@ -84,13 +89,18 @@ func (w *world) walk(t int, e *yang.Entry, steps, names []string, viaRP bool) {
 		return
 	}
 	w.idx[e] = len(w.nodes)
-	w.nodes = append(w.nodes, &node{e: e, tree: t, steps: append([]string{}, steps...), names: append([]string{}, names...), viaRP: viaRP})
+	w.nodes = append(w.nodes, &node{e: e, tree: t, steps: append([]string{}, steps...), names: append([]string{}, names...),
+		schema: append([]string{}, schema...), viaRP: viaRP})
 	for _, k := range lib.SortedKeys(e.Dir) {
-		w.walk(t, e.Dir[k], append(steps, "c"+lib.HexS(k)), append(names, k), viaRP || e.RPC != nil)
+		sc := append(schema, k)
+		if c := e.Dir[k]; e.Kind == yang.ChoiceEntry && c != nil && c.Kind != yang.CaseEntry {
+			sc = append(sc, k) // the implied case the source means
+		}
+		w.walk(t, e.Dir[k], append(steps, "c"+lib.HexS(k)), append(names, k), sc, viaRP || e.RPC != nil)
 	}
 	if e.RPC != nil {
-		w.walk(t, e.RPC.Input, append(steps, "i"), append(names, "input"), viaRP)
-		w.walk(t, e.RPC.Output, append(steps, "o"), append(names, "output"), viaRP)
+		w.walk(t, e.RPC.Input, append(steps, "i"), append(names, "input"), append(schema, "input"), viaRP)
+		w.walk(t, e.RPC.Output, append(steps, "o"), append(names, "output"), append(schema, "output"), viaRP)
 	}
 }
 
@@ -113,7 +123,7 @@ func buildWorld(ms *yang.Modules) *world {
 		w.trees = append(w.trees, tree{mod: m, ref: treeRef(m), root: yang.ToEntry(m)})
 	}
 	for t := range w.trees {
-		w.walk(t, w.trees[t].root, nil, nil, false)
+		w.walk(t, w.trees[t].root, nil, nil, nil, false)
 	}
 	return w
 }
@@ -331,7 +341,7 @@ func hook(c rescorr.Case, ms *yang.Modules, errs []error, out *rescorr.GoOut) {
 			if bt.mod.BelongsTo == nil {
 				pf, known := prefixesFor(ms, ctx, bt.mod)
 				for k, px := range pf {
-					qs = append(qs, query{p.a, cref, absPath(px, b.names, (pi+k)%3), "t" + strconv.Itoa(p.b), "abs"})
+					qs = append(qs, query{p.a, cref, absPath(px, b.schema, (pi+k)%3), "t" + strconv.Itoa(p.b), "abs"})
 				}
 				// a prefix the context module does not bind: nothing may be found
 				own := bt.mod.GetPrefix()
@@ -342,7 +352,7 @@ func hook(c rescorr.Case, ms *yang.Modules, errs []error, out *rescorr.GoOut) {
 			}
 			// a first step without prefix stays in the start node's own module
 			if homeTree(a.tree) == bt.mod && pi%4 == 0 {
-				qs = append(qs, query{p.a, cref, absPath("", b.names, 0), "t" + strconv.Itoa(p.b), "abs-bare"})
+				qs = append(qs, query{p.a, cref, absPath("", b.schema, 0), "t" + strconv.Itoa(p.b), "abs-bare"})
 			}
 		}
 		if a.tree == b.tree && ctx != nil {
@@ -457,7 +467,7 @@ func hook(c rescorr.Case, ms *yang.Modules, errs []error, out *rescorr.GoOut) {
 				}
 				w.idx[res] = len(w.nodes)
 				w.nodes = append(w.nodes, &node{e: res, tree: pn.tree, steps: append(append([]string{}, pn.steps...), s),
-					names: append(append([]string{}, pn.names...), nm)})
+					names: append(append([]string{}, pn.names...), nm), schema: append(append([]string{}, pn.schema...), nm)})
 				ans = w.trees[pn.tree].ref + "/" + encSteps(w.nodes[len(w.nodes)-1].steps) + "/" + lib.HexS(res.Path())
 				if q.kind != "create" {
 					ans += "!created"
